@@ -382,6 +382,42 @@ func runC06(c *core.Check) {
 			})
 			return true
 		})
+		// … for both spellings of the statement: `g()?` (an ErrWrapExpr) and the command style `mk? "a"` (a call whose
+		// function is the ErrWrapExpr, which compileCallExpr turns inside out)
+		guardTxt := ""
+		ast.Inspect(cs.Body, func(n ast.Node) bool {
+			is, isIf := n.(*ast.IfStmt)
+			if !isIf {
+				return true
+			}
+			calls := false
+			ast.Inspect(is.Body, func(m ast.Node) bool {
+				if call, isCall := m.(*ast.CallExpr); isCall {
+					if fn, isFn := calleeObj(info, call).(*types.Func); isFn && fn.Name() == "discardErrWrapValues" {
+						calls = true
+					}
+				}
+				return true
+			})
+			if !calls {
+				return true
+			}
+			guardTxt += nows(nodeTextAll(is.Cond))
+			ast.Inspect(is.Cond, func(m ast.Node) bool {
+				if call, isCall := m.(*ast.CallExpr); isCall {
+					if fn, isFn := calleeObj(info, call).(*types.Func); isFn && fn.Pkg() == pk.Types {
+						if hd := core.FindFuncDecl(pk, core.FuncObjName(fn)); hd != nil && hd.Body != nil {
+							guardTxt += nows(nodeTextAll(hd.Body))
+						}
+					}
+				}
+				return true
+			})
+			return true
+		})
+		plain := strings.Contains(guardTxt, "*ast.ErrWrapExpr") && strings.Contains(guardTxt, "token.QUESTION") && strings.Contains(guardTxt, ".Default==nil")
+		command := strings.Contains(guardTxt, "*ast.CallExpr") && strings.Contains(guardTxt, ".Fun")
+		c.Decide(ok && plain && command, "valid-go", "exprstmt-errwrap-command", cs.Pos(), "the guard recognises `expr?` and the command style `cmd? args`", "the guard of the discard in cl.compileStmt does not recognise both spellings of an error-wrap statement (`g()?` — an *ast.ErrWrapExpr with `?` and no default — and the command style `mk? \"a\"` — an *ast.CallExpr whose Fun is that expression): for the unrecognised one the generated code keeps a lone `_autoGo_N` statement, which Go rejects")
 		c.Decide(ok, "valid-go", "exprstmt-errwrap", cs.Pos(), "the values of `expr?` used as a statement are assigned to blanks", "cl.compileStmt no longer discards the values an `expr?` statement leaves on the operand stack: the generated code contains a lone `_autoGo_1` expression statement, which Go rejects, although the compiler reported success")
 	}
 
